@@ -54,6 +54,7 @@ class Report:
                                    nontrivial=nontrivial, **kw))
 
     def violation(self, rule, key, msg, where="", **kw):
+        kw.pop("nontrivial", None)
         self.instances.append(dict(rule=rule, key=key, verdict="violation", msg=msg, where=where,
                                    nontrivial=True, **kw))
 
